@@ -316,3 +316,6 @@ def run(prog, rep):
     rule_dispatch(prog, rep)
     rule_locations(prog, rep)
     rule_nonempty(prog, rep)
+    from . import parser_produce
+
+    parser_produce.run(prog, rep)
